@@ -40,12 +40,16 @@ func (cfg *config) parseCfg(ctx context.Context, rd *reader) error {
 			if err != nil {
 				return pos.wrapErr(err)
 			}
+			// A parameter value can start or end with blanks; the printed
+			// configuration would be read back without them.
+			title = strings.TrimSpace(title)
 			cfg.titleStrings = append(cfg.titleStrings, title)
 		} else if att, ok := withPrefix(line, "attention "); ok {
 			att, err = cfg.preprocReplace(att)
 			if err != nil {
 				return pos.wrapErr(err)
 			}
+			att = strings.TrimSpace(att)
 			cfg.seeAlso = append(cfg.seeAlso, att)
 		} else if auth, ok := withPrefix(line, "author "); ok {
 			// Author strings are not modified by preprocessing!
@@ -747,6 +751,7 @@ func (cfg *config) parseActors(line string) error {
 		if err != nil {
 			return err
 		}
+		extraEnv = strings.TrimSpace(extraEnv)
 
 		addOneActor := func(actorName, extraEnv string) error {
 			if _, ok := cfg.actors[actorName]; ok {
